@@ -14,6 +14,11 @@ from harness.swctext import Expect
 
 PID = "C10"
 TRANSLATE = True
+# Gen/AlgoLMeasure.lean is regenerated on every run from analysis/lmeasure.py (n_stems, n_bifs, n_branch, n_tips, branch_order, terminal_degree,
+# partition_asymmetry, fragmentation), tree.py (Tree.soma, Tree.get_tips, Tree.Node.subtree), swc.py (number_of_edges); it calls the node handles
+# (Gen/AlgoNode), get_furcations / get_branches (Gen/AlgoBranches) and get_subtree_impl (Gen/AlgoSubtree), all over the generated traversal
+TRANSLATE_ALGO = ["AlgoTraverse", "AlgoNode", "AlgoBranches", "AlgoSubtree", "AlgoLMeasure"]
+DRIVER_FILES = ["SwcVerif/Model/AlgoRunLMeasure.lean", "SwcVerif/Model/PyMore.lean"]
 LEAN_MODS = ["SwcVerif.Props.C10", "SwcVerif.Proofs.Represent"]
 THEOREMS = [
     "C10.length_eq_sum_edges", "C10.chainLength_eq", "C10.length_eq_sum_branches", "C10.branches_eq", "C10.counts", "C10.path_distance_eq_sum",
@@ -167,6 +172,141 @@ def truth(t):
     return out
 
 
+def glm_lines(t, lm, order, degree, pa, frag):
+    """protocol lines for the GENERATED L-Measure functions (driver op `glm`); `lm` = the four counts or None (they raised), `pa` = node -> value
+    or "E" (AssertionError: not a bifurcation)"""
+    g = f"glm pids={gen.ints(t['pids'])} types={gen.ints(t['types'])}"
+    out = []
+    if lm is not None:
+        out.append((f"{g} what=counts", " ".join(str(lm[k]) for k in ("n_stems", "n_bifs", "n_branch", "n_tips"))))
+    out += [(f"{g} what=branch_order", gen.ints(order)), (f"{g} what=terminal_degree", gen.ints(degree)), (f"{g} what=fragmentation", gen.ints(frag))]
+    if pa:
+        def same(want):
+            def f(got):
+                vals = got.split()
+                if len(vals) != len(want):
+                    return False
+                for x, w in zip(vals, want):
+                    if w == "E" or x == "E":
+                        if x != w:
+                            return False
+                    else:
+                        a, b = x.split("/")
+                        if int(a) / int(b) != w:          # Python's int / int is the correctly rounded quotient: exact comparison
+                            return False
+                return True
+            return f
+        nodes = sorted(pa, key=int)
+        want = [pa[v] for v in nodes]
+        out.append((f"{g} what=partition_asymmetry nodes={gen.ints([int(v) for v in nodes])}", Expect(same(want), str(want))))
+    return out
+
+
+class LmTopo(Suite):
+    """the topological L-Measure functions on trees of every shape and numbering (parents may follow their children), on every small tree
+    exhaustively, at every node; the counts also on trees whose root is not typed as soma (`Tree.soma` refuses)"""
+    name = "c10.lmtopo"
+
+    def cases(self, rng, tier, widen):
+        out = []
+        big = tier == "thorough" or widen
+        for n in range(1, 6 if big else 5):
+            for pids in gen.all_root0_trees(n):
+                out.append({"class": f"all-n{n}", "n": n, "pids": pids, "types": [1] + [3] * (n - 1)})
+        k = 0
+        for n in gen.sizes(tier, widen):
+            for _ in range(3 if not big else 6):
+                shape = gen.pick_shape(rng, k); k += 1
+                pids = gen.parents_sorted(rng, n, shape)
+                if k % 3:
+                    pids = gen.renumber_root0(rng, pids)
+                ty = [1 if k % 5 else rng.choice([0, 2, 3])] + [rng.choice([1, 2, 3, 4]) for _ in range(len(pids) - 1)]
+                out.append({"class": shape + ("/root0" if k % 3 else "/sorted") + ("" if ty[0] == 1 else "/no-soma"), "n": len(pids), "pids": pids, "types": ty})
+        return out
+
+    def run(self, case):
+        from swcgeom.analysis.lmeasure import LMeasure
+
+        n = case["n"]
+        t = gen.make_tree(dict(case, xyz=[[float(i), float(i * i % 7), float(i % 3)] for i in range(n)], r=[1.0] * n))
+        lm = LMeasure()
+        res = {}
+        with warnings.catch_warnings():
+            warnings.simplefilter("ignore")
+            try:
+                res["lm"] = {"n_stems": int(lm.n_stems(t)), "n_bifs": int(lm.n_bifs(t)), "n_branch": int(lm.n_branch(t)), "n_tips": int(lm.n_tips(t))}
+            except ValueError as e:
+                res["lm"] = None
+                res["lm_exc"] = str(e)[:40]
+                res["lm_rest"] = [int(lm.n_bifs(t)), int(lm.n_branch(t)), int(lm.n_tips(t))]
+            res["order"] = [int(lm.branch_order(t.node(i))) for i in range(n)]
+            res["degree"] = [int(lm.terminal_degree(t.node(i))) for i in range(n)]
+            res["pa"] = {}
+            for i in range(n):
+                try:
+                    res["pa"][str(i)] = float(lm.partition_asymmetry(t.node(i)))
+                except AssertionError:
+                    res["pa"][str(i)] = "E"
+            res["frag"] = [int(lm.fragmentation(b)) for b in t.get_branches()]
+        return res
+
+    def lines(self, case, res):
+        if "exc" in res:
+            return []
+        out = glm_lines(case, res["lm"], res["order"], res["degree"], res["pa"], res["frag"])
+        if res["lm"] is None:
+            out.append((f"glm pids={gen.ints(case['pids'])} types={gen.ints(case['types'])} what=counts", "E " + " ".join(str(v) for v in res["lm_rest"])))
+        return out
+
+    def oracle(self, case, res):
+        pids, n = case["pids"], case["n"]
+        if "exc" in res:
+            return [("lm-raises", f"{res['exc']}: {res.get('msg')} on pids={pids}")]
+        kids = {}
+        for i, p in enumerate(pids):
+            kids.setdefault(p, []).append(i)
+        nk = lambda v: len(kids.get(v, []))
+        def below(v):
+            st, c = [v], 0
+            while st:
+                x = st.pop()
+                c += nk(x) == 0
+                st.extend(kids.get(x, []))
+            return c
+        def up(i):
+            p = [i]
+            while pids[p[-1]] != -1:
+                p.append(pids[p[-1]])
+            return p
+        out = []
+        tips, furc = sum(1 for i in range(n) if nk(i) == 0), sum(1 for i in range(n) if nk(i) > 1)
+        nbr = sum(nk(v) for v in range(n) if v == 0 or nk(v) > 1)
+        if case["types"][0] == 1:
+            if res["lm"] is None:
+                out.append(("lm-counts", f"the counts raised {res.get('lm_exc')} on a tree with a soma (pids={pids})"))
+            elif [res["lm"][k] for k in ("n_stems", "n_bifs", "n_branch", "n_tips")] != [nk(0), furc, nbr, tips]:
+                out.append(("lm-counts", f"n_stems/n_bifs/n_branch/n_tips {res['lm']}, the definitions give {[nk(0), furc, nbr, tips]} (pids={pids})"))
+        elif res["lm"] is None and res["lm_rest"] != [furc, nbr, tips]:
+            out.append(("lm-counts", f"n_bifs/n_branch/n_tips {res['lm_rest']}, the definitions give {[furc, nbr, tips]} (pids={pids})"))
+        want = [sum(1 for v in up(i) if nk(v) > 1) for i in range(n)]
+        if res["order"] != want:
+            out.append(("lm-branch-order", f"branch order {res['order']}, furcations on the root paths: {want} (pids={pids})"))
+        want = [below(i) for i in range(n)]
+        if res["degree"] != want:
+            out.append(("lm-terminal-degree", f"terminal degree {res['degree']}, tips at or below: {want} (pids={pids})"))
+        for i in range(n):
+            got = res["pa"][str(i)]
+            if nk(i) == 2:
+                a, b = (below(c) for c in kids[i])
+                w = 0.0 if a == b else abs(a - b) / (a + b - 2)
+                if got == "E" or abs(got - w) > 1e-12:
+                    out.append(("lm-partition-asymmetry", f"partition asymmetry at {i}: {got}, the definition gives {w} (pids={pids})")); break
+        return out[:3]
+
+    def nontrivial(self, case, res):
+        return case["n"] >= 3
+
+
 class Features(Suite):
     name = "c10.features"
     case_timeout = 120
@@ -282,6 +422,7 @@ class Features(Suite):
                             res[name][str(v)] = {"exc": type(e).__name__, "msg": str(e)[:80]}
             brs = t.get_branches()
             res["fragmentation"] = sorted(int(lm.fragmentation(b)) for b in brs)
+            res["fragmentation_ordered"] = [int(lm.fragmentation(b)) for b in brs]
             res["contraction"] = sorted(float(lm.contraction(b)) for b in brs)
             fe = extract_feature(t)
             res["fe"] = {k: [float(v) for v in np.atleast_1d(fe.get(k))] for k in
@@ -347,6 +488,8 @@ class Features(Suite):
             P = t["xyz"]
             rad2 = [sum((P[i][k] - P[0][k]) ** 2 for k in range(3)) for i in range(n)]
             out.append((f"feat {a} what=sholl rad2={gen.ints(rad2)} r2={','.join(str(Fraction(v)) for v in case['sholl_r2'])}", gen.ints(res["sholl_get"])))
+        # the definitions GENERATED from the current source of the L-Measure functions, run on the same tree
+        out += glm_lines(t, res["lm"], res["branch_order_lm"], res["terminal_degree"], res["partition_asymmetry"], res["fragmentation_ordered"])
         return out
 
     def oracle(self, case, res):
@@ -1109,7 +1252,7 @@ class PopulationRows(Suite):
         return len([t for g in case["groups"] for t in g]) >= 2
 
 
-SUITES = [Features(), Angles(), Closed(), ShollNear(), Requests(), PopulationRows()]
+SUITES = [Features(), Angles(), Closed(), ShollNear(), Requests(), PopulationRows(), LmTopo()]
 TECHNIQUE = ("Lean 4 theorems about the feature models (tree length = Σ edge lengths = Σ branch lengths via C08's edge partition; path length = path distance of its tip; "
              "counts, branch order, terminal degree, Sholl straddle count read off their definitions; partition asymmetry REGENERATED from lmeasure.py; zero-padded "
              "population rows) + differential correspondence (exact on integer-edge lattice trees) + an oracle computing every quantity from its definition in float64")
